@@ -2,18 +2,39 @@
 Model/LinSolve.lean + correspondence K-C02 between that model (driver drv_c02, exact
 Rat arithmetic) and remora's real kernels (harness/c02.cpp, built twice: default kernels
 and the OpenBLAS-backed bindings)."""
-import os, re, json
+import os, re, json, sys
+if hasattr(sys, 'set_int_max_str_digits'):
+    sys.set_int_max_str_digits(0)     # approximated roots give rationals with thousands of digits
 from fractions import Fraction
 from vlib import core
 
 TRUST = ("Lean 4.33 kernel; axioms at most propext/Classical.choice/Quot.sound (audited per run by #audit_module); "
          "hand-written model tied to the C++ by the correspondence harness (differential, generator-bounded); ")
 MANIFEST = dict(
-  text=("Theorems (Props/C02.lean), exact arithmetic over Rat, for every size n and every input: see the theorem list in the file. "
-        "The model (Model/LinSolve.lean) is tied to remora's default kernels by an exact correspondence on dyadic systems whenever "
-        "FE_INEXACT stays clear, and by a residual oracle otherwise and for the OpenBLAS-backed build."),
-  note=TRUST + "PARTIAL: floating-point backward-error bounds, conjugate gradient and the symmetric eigensolver are only exercised by the residual oracle.",
-  technique="Lean 4 proofs (induction over the elimination steps) + exact-mode differential correspondence with the C++ (ASan/UBSan, FE_INEXACT)",
+  text=("Theorems (Props/C02.lean) in exact arithmetic over Rat about the executable model Model/LinSolve.lean, for every size n, every "
+        "matrix / right-hand side, every triangular tag and side (no bound anywhere): trsv_correct / trsm_correct (no zero on a divided "
+        "diagonal => T x = b, x T = b, T X = B, X T = B; T = the triangle the tag denotes, other triangle never read); trsv_unique; "
+        "potrf_correct (returns 0 => L L^T = A on the stored triangle, other triangle untouched), potrf_upper_correct, potrf_info_spec "
+        "(returns k+1 => first k pivots positive, Schur pivot k <= 0); getrf_correct (no exception => P A = L U for the recorded "
+        "transposition sequence); solve_eq_of_factorisation and its instance solve_spd_correct (solve(A,b,symm_pos_def) returns x with "
+        "A x = b), solve_spd_unique; inv_prod_is_solve / inv_prod_is_solve_spd (explicit inverse times b = the solve call). The square "
+        "root is a parameter r required to be exact on the pivots that occur (SqrtSpec). The model is tied to remora's default kernels "
+        "by an exact correspondence (driver drv_c02 in Rat vs C++ doubles printed exactly) on systems built from integer factors with "
+        "power-of-two diagonals, sizes 1..70 across the block sizes 4/16/20/32/64, both orientations, left/right, vector/matrix "
+        "right-hand sides, all tags, rank deficiencies 0..n for pstrf: whenever FE_INEXACT stays clear the C++ result must equal the "
+        "model's; otherwise, and for the OpenBLAS-backed build (-DREMORA_USE_CBLAS via Shark.h), an in-harness residual oracle in long "
+        "double (|A x - b| <= 1e-9 (|A||x|+|b|), L L^T, P A = L U, P^T A P = L L^T, Q D Q^T, Q^T Q = I, normal equations) decides."),
+  note=TRUST + "PARTIAL. Proved only on the model: everything listed in `text`. potrf_strict_correct_partial needs 'no pivot is exactly zero' "
+       "(the unrepaired (row_major,upper) kernel accepts a zero pivot: finding C02-potrf-zero-pivot-accepted). NOT theorems, exercised by the "
+       "correspondence / residual oracle only: pivoted Cholesky pstrf and the semi-definite solver incl. the least-squares clause (modelled and "
+       "compared exactly, nothing proved), LU-based solve (getrf and the triangular solves are proved, their composition with the permutation "
+       "is not), rank-one Cholesky update, conjugate gradient, symmetric eigendecomposition (oracle only, no model), the blocked recursions "
+       "(modelled as the unblocked loops; equality in exact arithmetic follows from trsv_unique for trsm and is otherwise established by the "
+       "exact correspondence across the block boundaries), floating-point backward-error bounds ('residual at rounding level' is measured, not proved). "
+       "The model describes the tree with findings_proposed/C02.patch applied (pstrf stops at pivot <= epsilon; both potrf kernels reject pivot <= 0; "
+       "potrf return code is global): on the unpatched tree the check reports C02-pstrf-zero-matrix, C02-potrf-zero-pivot-accepted, "
+       "C02-potrf-info-relative-to-block.",
+  technique="Lean 4 proofs (course-of-values recurrences, elimination invariants by induction over the steps) + exact-mode differential correspondence with the C++ (ASan/UBSan, FE_INEXACT) + residual oracle",
   design="§6 C02")
 FINISH = dict(level="proof",
               rule="one case = one kernel / decomposition / solve call on a generated system; exact cases are built from integer "
